@@ -25,6 +25,8 @@ partial def encodeRVal : Tok.RVal → Sexp
   | .set xs => .list (sym "set" :: xs.map encodeRVal)
   | .fset xs => .list (sym "fset" :: xs.map encodeRVal)
   | .dict kvs => .list (sym "dict" :: kvs.map fun (k, v) => .list [encodeRVal k, encodeRVal v])
+  | .call name items => .list (sym "call" :: .list (name.map ofNat) :: items.map encodeRVal)
+  | .kwarg name v => .list [sym "kwarg", .list (name.map ofNat), encodeRVal v]
 
 /-- one layout configuration `(w rw smart)` -/
 def decodeCfg : Sexp → Option Cfg
